@@ -505,8 +505,8 @@ func describe(c pcase) string {
 
 func genPath(t *rapid.T) wire.PathSpec {
 	ps := wire.PathSpec{Seed: rapid.Uint64().Draw(t, "pathseed")}
-	ps.Kind = rapid.SampledFrom([]string{"empty", "scion", "scion", "scion", "onehop"}).Draw(t, "pathkind")
-	if ps.Kind == "scion" {
+	ps.Kind = rapid.SampledFrom([]string{"empty", "scion", "scion", "scion", "onehop", "epic"}).Draw(t, "pathkind")
+	if ps.Kind == "scion" || ps.Kind == "epic" {
 		ns := rapid.IntRange(1, 3).Draw(t, "nsegs")
 		total := 0
 		for i := 0; i < ns; i++ {
@@ -528,7 +528,7 @@ func genPath(t *rapid.T) wire.PathSpec {
 	return ps
 }
 
-var recProbe = ev.New("c13/listener-probes", "rapid: SCION packets built with slayers and sent from a harness 'previous hop' socket to the real SCION listener (service port and end-host port 30041, USE_MOCK_KEYS=true): payload {NTP request, SCMP echo (0..1200 data bytes), SCMP traceroute, UDP to another end-host port, UDP to port 30041}; SCION host addresses IPv4 / IPv6 / IPv4-mapped IPv6 on either side, arbitrary ISD-AS; path {empty, SCION with 1..3 segments x 1..16 hops at every CurrINF/CurrHF position, one-hop}; arbitrary L4 source port; hop-by-hop extension present or not; packet authenticator {absent, valid MAC, flipped MAC bit, the same two behind another party's authenticator option (other SPI) in the same extension, flipped covered payload byte, flipped authenticator metadata bit, other SPI, server-direction SPI, other algorithm}. Each probe is followed by a sentinel on the same socket pair. Oracle: time-service authenticator whose recomputed MAC differs => no reply; valid => reply with server-direction authenticator that verifies; every reply returns to the previous hop with ISD-AS/host/port exchanged, path equal to an independently computed reversal, NTP transmit timestamp / SCMP identifier, sequence number and data echoed; forwarding exactly when received on the end-host port for a port != 30041, once, payload and addresses unchanged (also when the end-to-end extension is nearly as long as an extension can be: 1..4 options of 250 bytes); nothing ever reaches port 30041 of the destination host. Non-trivial: non-empty path, authenticator present, or the forwarding branch; distinct by case hash")
+var recProbe = ev.New("c13/listener-probes", "rapid: SCION packets built with slayers and sent from a harness 'previous hop' socket to the real SCION listener (service port and end-host port 30041, USE_MOCK_KEYS=true): payload {NTP request, SCMP echo (0..1200 data bytes), SCMP traceroute, UDP to another end-host port, UDP to port 30041}; SCION host addresses IPv4 / IPv6 / IPv4-mapped IPv6 on either side, arbitrary ISD-AS; path {empty, SCION with 1..3 segments x 1..16 hops at every CurrINF/CurrHF position, one-hop, EPIC-HP (a SCION path behind a packet id and two hop validation fields; the reply has to use the reversed SCION path, as the one-way EPIC header cannot be reversed)}; arbitrary L4 source port; hop-by-hop extension present or not; packet authenticator {absent, valid MAC, flipped MAC bit, the same two behind another party's authenticator option (other SPI) in the same extension, flipped covered payload byte, flipped authenticator metadata bit, other SPI, server-direction SPI, other algorithm}. Each probe is followed by a sentinel on the same socket pair. Oracle: time-service authenticator whose recomputed MAC differs => no reply; valid => reply with server-direction authenticator that verifies; every reply returns to the previous hop with ISD-AS/host/port exchanged, path equal to an independently computed reversal, NTP transmit timestamp / SCMP identifier, sequence number and data echoed; forwarding exactly when received on the end-host port for a port != 30041, once, payload and addresses unchanged (also when the end-to-end extension is nearly as long as an extension can be: 1..4 options of 250 bytes); nothing ever reaches port 30041 of the destination host. Non-trivial: non-empty path, authenticator present, or the forwarding branch; distinct by case hash")
 
 func TestPropListenerProbes(t *testing.T) {
 	vt.Check(t, 2500, 25000, func(t *rapid.T) {
@@ -657,6 +657,9 @@ func TestPropEndToEnd(t *testing.T) {
 		ps := genPath(t)
 		if ps.Kind == "onehop" {
 			ps.Kind = "empty"
+		}
+		if ps.Kind == "epic" { // the project's client does not build EPIC paths
+			ps.Kind = "scion"
 		}
 		bit := rapid.IntRange(0, 1<<16).Draw(t, "bit")
 		c := &client.SCIONClient{Log: slog.New(slog.NewTextHandler(io.Discard, nil))}
